@@ -128,6 +128,12 @@ pub struct H2ConnPlan {
     pub hpack: HpackStyle,
     /// payload units (a header block, one DATA frame, one burst of an abuse op) produced per step
     pub batch: u32,
+    /// client role: do not send the connection preface (C15: first bytes are the abuse)
+    #[serde(default)]
+    pub no_preface: bool,
+    /// do not send the initial SETTINGS frame (C15: preface-only state)
+    #[serde(default)]
+    pub no_settings: bool,
 }
 impl Default for H2ConnPlan {
     fn default() -> Self {
@@ -140,6 +146,8 @@ impl Default for H2ConnPlan {
             answer_pings: true,
             hpack: HpackStyle::default(),
             batch: 1,
+            no_preface: false,
+            no_settings: false,
         }
     }
 }
@@ -1328,9 +1336,11 @@ impl H2Peer {
         if !self.started {
             self.started = true;
             self.t_start = now;
-            if self.role == Role::Client { self.push_bytes(PREFACE, 0); }
-            let params = self.plan.settings.params();
-            self.send_settings(now, params);
+            if self.role == Role::Client && !self.plan.no_preface { self.push_bytes(PREFACE, 0); }
+            if !self.plan.no_settings {
+                let params = self.plan.settings.params();
+                self.send_settings(now, params);
+            }
             if self.plan.conn_window_bonus > 0 {
                 let inc = self.plan.conn_window_bonus;
                 self.push_frame(&Frame::WindowUpdate { stream: 0, increment: inc });
